@@ -4,7 +4,8 @@
    lossless validator is a pure parameter of it. *)
 From Coq Require Import List NArith Bool.
 From Coq.Strings Require Import Byte.
-From MS Require Import Base.Bytes Base.Outcome Base.Prog Base.ProgSpec Webp.Container Webp.ContainerProofsFault.
+From MS Require Import Base.Bytes Base.Outcome Base.Prog Base.ProgSpec Webp.Container Webp.ContainerProofsFault
+  Webp.ContainerProofsTotal.
 Open Scope N_scope.
 
 (* for every reader, reader state, operation index, error kind, configuration, lossless validator and fuel: a fault at
@@ -28,3 +29,16 @@ Theorem C13_reader_error_propagates_webp :
   fst (run R p s) = EIo e \/ (e = EUnexpectedEof /\ fst (run R p s) = EParse TruncatedChunk).
 Proof. exact reader_error_propagates_webp. Qed.
 Print Assumptions C13_reader_error_propagates_webp.
+
+(* fault-free inputs: never an I/O error.  A strict cursor (Skip that fails at the end of the input) answers only
+   UnexpectedEof, which every site of the chunk reader maps to TruncatedChunk; a seek-style cursor fails only when a
+   skip target exceeds its seek bound, and every skip of webpsan ends at most 2^32 bytes after a chunk header lying
+   inside the input: with ilen + 2^32 <= bound (in memory: ilen < 2^63, bound 2^64-1) none does.  For every input, both
+   configurations, every fuel, and every lossless validator that itself reports no I/O error and does not panic. *)
+Theorem C13_no_spurious_io_webp :
+  forall (lossless : N -> N -> bytes -> res unit) (allow lenient : bool) (ms : N) (inp : input) (fuel : nat),
+  (forall w h b, rgood (lossless w h b)) -> (forall w h b e, lossless w h b <> EIo e) ->
+  (lenient = true -> ilen inp + 2 ^ 32 <= ms) ->
+  forall e, webp_sanitize lossless allow lenient ms inp fuel <> EIo e.
+Proof. exact webp_sanitize_no_io. Qed.
+Print Assumptions C13_no_spurious_io_webp.
